@@ -207,6 +207,11 @@ def mutations(sub: Subject, v: View, n: int, full: bool) -> list[list]:
     if v.conv is not None:
         ops.append([a, 'discard', 0])
         ops.append([a, 'discard', 'absent'])
+    if v.attr.endswith('_with_comments'):
+        # attribution calls change the list too (comments enter and leave it): afterwards every view must still agree
+        ops.append([a, 'claim_all'])
+        ops.append([a, 'unclaim_all'])
+        ops.append([a, 'unclaim_first'])
     if v.mapping:
         for key in ('k0', 'k1', 'k2', 'kx'):
             ops.append([a, 'mdel', key])
@@ -280,6 +285,27 @@ def run_trace(case: dict, *, check_from: int = 0) -> tuple[core.CaseResult, Opti
         where = f'{where0} after {case["ops"][:step + 1]}: '
         key_site = f'{sub.name}:{v.attr}.{meth}'
         raw_view = getattr(m, sub.raw)
+        if meth in ('claim_all', 'unclaim_all', 'unclaim_first'):
+            try:
+                if meth == 'claim_all':
+                    raw_view.claim_interleaving_comments()
+                elif meth == 'unclaim_all':
+                    raw_view.unclaim_interleaving_comments()
+                else:
+                    first = [x for x in raw_view if isinstance(x, M.BlockComment)][:1]
+                    raw_view.unclaim_interleaving_comments(first)
+            except ValueError:
+                pass
+            except Exception as e:  # noqa
+                if checked:
+                    res.fail(f'C10/call-raises-unexpected[{key_site}]', where + f'{type(e).__name__}: {e}')
+                return res, None
+            if checked:
+                res.transitions += 1
+                res.outcomes[f'{meth}:ok'] += 1
+                if not consistency_sweep(sub, m, res, where, key_site):
+                    return res, None
+            continue
         raw_b = list(raw_view)
         T = (lambda x: True) if v.kinds == '' else (lambda x, ks=v.kinds: sub.kind_of(x) in ks)
         proj_b = [x for x in raw_b if T(x)]
@@ -685,10 +711,10 @@ def explore_subject_parallel(run: core.Run, subject: str, cap: int, full: bool, 
             frontier = nxt
             if run.total.errors:
                 break
-    run.bounds.setdefault('subjects', {})[subject] = {
+    run.bounds.setdefault('subjects', {})[f'{subject} (cap {cap}, depth {max_depth})'] = {
         'max_list_length': cap, 'states': len(seen), 'depth_completed': depth, 'fixpoint': not frontier,
         'initial_patterns': len(patterns), 'views_read_subsets': len(reads)}
-    if frontier:
+    if frontier and run.tier != 'quick':
         run.caps_hit.append(f'{subject}: depth bound {max_depth} reached with {len(frontier)} unexpanded states (not a fixpoint)')
 
 
@@ -707,8 +733,11 @@ def main(run: core.Run) -> None:
                        'documented deviation: a filtered-view slice assignment of different length raises ValueError and changes nothing',
                        'where a new element goes relative to elements not visible through the view is not prescribed (only the projection and the complement order are)']
     if tier == 'quick':
-        plan = [('file.directives', 2, False, 2), ('txn.postings', 2, False, 2), ('txn.meta', 2, False, 2),
-                ('txn.tags_links', 2, False, 2), ('open.currencies', 2, False, 2), ('custom.values', 2, False, 2)]
+        # lists up to 3 elements as initial states, every mutation once from each (depth 1); the two-kind string views also
+        # at depth 2 from lists up to 2
+        plan = [('file.directives', 3, False, 1), ('txn.postings', 3, False, 1), ('txn.meta', 3, False, 1),
+                ('posting.meta', 2, False, 1), ('txn.tags_links', 3, False, 1), ('txn.tags_links', 2, False, 2),
+                ('open.currencies', 3, False, 2), ('custom.values', 2, False, 2)]
     else:
         plan = [(s, 3, True, 3) for s in SUBJECTS]
     for subject, cap, full, depth in plan:
